@@ -29,13 +29,15 @@ def EvalSt.last (s : EvalSt) : Option Solution := s.sols.back?
 
 /-- a successful solve: leaves get the new values (caches of non-leaf objects are *not* touched),
 sent scalar constraints get multiplier tokens `1000 + position` -/
+def leafValue (w : World) (sol : Solution) (h : Nat) : Option Coef :=
+  ((w.exs[h]?).bind (·.leaf)).map (fun c => sol.F.getD c 0)
+
+/-- the values `_eval_points_and_function_values` assigns to the leaf expressions: `F_value[counter]` -/
+def leafVals (w : World) (sol : Solution) : List (Nat × Coef) :=
+  (List.range w.exs.size).filterMap (fun h => (leafValue w sol h).map (fun x => (h, x)))
+
 def EvalSt.afterSolve (s : EvalSt) (w : World) (sol : Solution) : EvalSt :=
-  let leafVals : List (Nat × Coef) := (List.range w.exs.size).filterMap (fun h =>
-    match w.exs[h]? with
-    | some e => match e.leaf with
-      | some c => some (h, sol.F.getD c 0)
-      | Option.none => Option.none
-    | Option.none => Option.none)
+  let leafVals : List (Nat × Coef) := leafVals w sol
   let exVal := leafVals ++ s.exVal.filter (fun hv => !(leafVals.map (·.1)).contains hv.1)
   let duals : List (Nat × Coef) := (List.range w.sent.length).filterMap (fun k =>
     match (w.sent[k]? : Option Sent) with
